@@ -85,6 +85,7 @@ CONFIGS = {
     'nm-g-ps': dict(length='nm', mass='g', time='ps', charge='e'),
     'metal-J': dict(length='angstrom', time='ps', energy='J', charge='C'),
     'cm-eV': dict(length='cm', mass='amu', energy='eV', charge='e'),
+    'random': dict(seed=20240928),      # numericalunits' random working units: all five base units non-trivial
 }
 UNITS = {
     'length': ['angstrom', 'nm', 'm', 'cm', 'pm'],
@@ -176,8 +177,12 @@ def gen_uc(rng):
     if arr['dt'] != 's' and rng.random() < 0.08:
         unit = 'scaled'
     w1, w2 = _gen_cfgs(rng)
-    return {'kind': 'uc', 'via': rng.choice(['tree', 'json', 'xml']), 'w1': w1, 'w2': w2, 'unit': unit, 'arr': arr,
+    case = {'kind': 'uc', 'via': rng.choice(['tree', 'json', 'xml']), 'w1': w1, 'w2': w2, 'unit': unit, 'arr': arr,
             'form': rng.choice(['ndarray', 'ndarray', 'python', 'fview'])}
+    if arr['dt'] == 'f' and rng.random() < 0.25:
+        # uc.model(value, unit, error=...): an uncertainty of the same shape, stored next to the value
+        case['err'] = [cm.dyadic(rng, 0, 2, 4) for _ in arr['data']]
+    return case
 
 
 def _len_unit(rng):
@@ -246,7 +251,10 @@ def gen_sys(rng):
             'pbc': [rng.random() < 0.6 for _ in range(3)], 'symbols': symbols, 'masses': masses,
             'natoms': natoms, 'props': props,
             'call': rng.choice(['prop_unit', 'prop_unit', 'lists', 'default']),
-            'io': rng.choice(['str', 'str', 'path', 'fileobj'])}
+            'io': rng.choice(['str', 'str', 'path', 'fileobj']),
+            # the system as one of several entries of a larger record: load(..., key=, index=)
+            'record': rng.choice([None, None, {'key': 'atomic-system', 'index': 1}, {'key': 'final-system', 'index': 0},
+                                  {'key': 'relaxed-system', 'index': 2}])}
 
 
 EC_SYSTEMS = ['triclinic', 'isotropic', 'cubic', 'hexagonal', 'tetragonal', 'rhombohedral', 'orthorhombic']
@@ -733,6 +741,13 @@ def _run_real(case, r) -> RealRun:
             elif case.get('form') == 'fview' and value.ndim >= 2:   # same array, column-major memory
                 value = np.asfortranarray(value)
             model = uc.model(value, case['unit'])
+            if case.get('err') is not None:
+                err = np.array(case['err'], dtype=float).reshape(case['arr']['shape'])
+                if case.get('form') == 'python':
+                    err = err.tolist()
+                elif case.get('form') == 'fview' and err.ndim >= 2:
+                    err = np.asfortranarray(err)
+                r.extra['emodel'] = uc.model(value, case['unit'], error=err)
         elif k == 'box':
             model = _mk_box(case['box']).model(length_unit=case['unit'])
         elif k == 'atoms':
@@ -797,6 +812,12 @@ def _run_real(case, r) -> RealRun:
             r.via_tree = _reparse(text, wrap)
         if k == 'uc':
             r.read = uc.value_unit(text if via == 'tree' else r.via_tree)
+            if 'emodel' in r.extra:
+                try:
+                    et = r.extra['emodel'] if via == 'tree' else _reparse(_to_text(r.extra['emodel'], via, True), True)
+                    r.extra['eread'] = (uc.value_unit(et), uc.error_unit(et))
+                except Exception as e:  # noqa
+                    r.extra['eread_error'] = f'{type(e).__name__}: {e}'
         elif k == 'box':
             r.read = am.Box(model=text)
         elif k == 'atoms':
@@ -810,7 +831,19 @@ def _run_real(case, r) -> RealRun:
                 with open(r.extra['path'], 'rb') as fp:      # DataModelDict wants file objects in bytes mode
                     r.read = am.load('system_model', fp)
             else:
-                r.read = am.load('system_model', text)
+                rec = case.get('record')
+                if rec is None:
+                    r.read = am.load('system_model', text)
+                else:
+                    # the written system sits at position `index` among entries with the key `key`; the other
+                    # entries are a different (default) system
+                    from DataModelDict import DataModelDict as DM
+                    decoy = am.System().model()['atomic-system']
+                    mine = DM(text)['atomic-system']
+                    entries = [decoy] * rec['index'] + [mine] + [decoy]
+                    record = DM([('calculation', DM([('id', 'c10'), (rec['key'], entries)]))])
+                    rtext = record.json() if via == 'json' else record.xml()
+                    r.read = am.load('system_model', rtext, key=rec['key'], index=rec['index'])
         else:
             r.read = am.ElasticConstants(model=text)
             # the same model read into an *existing* object that was used before (compliances, 3x3x3x3 form)
@@ -1453,6 +1486,14 @@ def oracle(ctx, case, r: RealRun):
             arr = dict(arr, shape=[])
         ok &= _check_array(ctx, f'uc:{via}', tag, case, r.read, arr, _ratio(r, u), rt, 0,
                            keep_dtype=u is None)
+        if 'eread_error' in r.extra:
+            ctx.violate(f'uc:{via}:error-raises', f"{tag}: value with error raised {r.extra['eread_error']}", {'case': case})
+            ok = False
+        elif 'eread' in r.extra:
+            ok &= _check_array(ctx, f'uc:{via}:with-error', tag + ' value stored with an error', case, r.extra['eread'][0],
+                               arr, _ratio(r, u), rt, 0, keep_dtype=False)
+            ok &= _check_array(ctx, f'uc:{via}:error', tag + ' error', case, r.extra['eread'][1],
+                               dict(arr, data=case['err']), _ratio(r, u), rt, 0, keep_dtype=False)
         if ok and u not in (None, 'scaled') and case['arr']['dt'] != 's':
             # the physical value (expressed in the stored unit) is the same under both configurations
             phys = np.asarray(r.read, dtype=float).flatten() / r.fR[u]
